@@ -2,3 +2,624 @@
 From BVA Require Import Base.Prelude Base.Result Base.Words Base.Limbs.
 From BVA Require Import Model.Core Model.Ops Model.Arith Model.Conv Model.Auto Spec.Spec Proofs.Common.
 From Coq Require Import ZifyBool ZifyN ZifyNat.
+
+(* ------------------------------------------------------------------ generic N helpers *)
+
+Lemma mod_pow2_split a n m : a mod 2 ^ (n + m) = a mod 2 ^ n + 2 ^ n * ((a / 2 ^ n) mod 2 ^ m).
+Proof. rewrite pow2_add. apply N.mod_mul_r; apply pow2_ne0. Qed.
+
+Lemma mod_mod_pow2 a n m : n <= m -> (a mod 2 ^ m) mod 2 ^ n = a mod 2 ^ n.
+Proof.
+  intros H. apply N.bits_inj. intro i. rewrite !mod_pow2_testbit.
+  destruct (N.ltb_spec i n); destruct (N.ltb_spec i m); try reflexivity; lia.
+Qed.
+
+Lemma div_div_pow2 a n m : a / 2 ^ n / 2 ^ m = a / 2 ^ (n + m).
+Proof. rewrite pow2_add. apply N.div_div; apply pow2_ne0. Qed.
+
+Lemma mod_eq_of_add a b Q k1 k2 : Q <> 0 -> a + Q * k1 = b + Q * k2 -> a mod Q = b mod Q.
+Proof.
+  intros HQ H.
+  rewrite <- (N.mod_add a k1 Q) by assumption. rewrite <- (N.mod_add b k2 Q) by assumption.
+  f_equal. lia.
+Qed.
+
+Definition digits_of (w R : N) (rhs : N -> N) : Prop := forall i, rhs i = (R / 2 ^ (w * i)) mod 2 ^ w.
+
+Lemma digits_lt w R rhs i : digits_of w R rhs -> rhs i < 2 ^ w.
+Proof. intros H. rewrite H. apply N.mod_lt, pow2_ne0. Qed.
+
+(* ------------------------------------------------------------------ & | ^ *)
+
+Definition bitop_b (o : bitop) : bool -> bool -> bool :=
+  match o with OpAnd => andb | OpOr => orb | OpXor => xorb end.
+
+Lemma bitop_testbit o a b i : N.testbit (bitop_fn o a b) i = bitop_b o (N.testbit a i) (N.testbit b i).
+Proof. destruct o; cbn [bitop_fn bitop_b]; [apply N.land_spec|apply N.lor_spec|apply N.lxor_spec]. Qed.
+
+Lemma bitop_b_ff o : bitop_b o false false = false.
+Proof. destruct o; reflexivity. Qed.
+
+Lemma bitop_lt o w a b : a < 2 ^ w -> b < 2 ^ w -> bitop_fn o a b < 2 ^ w.
+Proof.
+  intros Ha Hb. apply lt_pow2_of_bits. intros i Hi.
+  rewrite bitop_testbit, (testbit_high a w i), (testbit_high b w i) by assumption.
+  apply bitop_b_ff.
+Qed.
+
+Lemma mapi_bitop_spec w o d rhs R :
+  0 < w -> words_ok w d -> digits_of w R rhs ->
+  words_ok w (mapi (fun i x => bitop_fn o x (rhs i)) d) /\
+  raw w (mapi (fun i x => bitop_fn o x (rhs i)) d) = bitop_fn o (raw w d) (R mod 2 ^ (w * lenw d)).
+Proof.
+  intros Hw Hd HR.
+  assert (Hok : words_ok w (mapi (fun i x => bitop_fn o x (rhs i)) d)).
+  { apply words_ok_mapi. intros i _. apply bitop_lt; [apply getw_ok; assumption|eapply digits_lt; eassumption]. }
+  split; [assumption|].
+  apply N.bits_inj. intro i.
+  rewrite bitop_testbit, mod_pow2_testbit, !raw_testbit by assumption.
+  pose proof (div_mod_eq i w) as Ei. pose proof (mod_lt' i w Hw) as Him.
+  destruct (N.lt_ge_cases (i / w) (lenw d)) as [Hlt|Hge].
+  - rewrite getw_mapi by assumption. rewrite bitop_testbit. f_equal.
+    rewrite HR, mod_pow2_testbit, div_pow2_testbit.
+    assert (i mod w <? w = true) as -> by (apply N.ltb_lt; assumption).
+    assert (i <? w * lenw d = true) as -> by (apply N.ltb_lt; nia).
+    cbn [andb]. f_equal. lia.
+  - rewrite getw_mapi_high by assumption. rewrite (getw_high d) by assumption.
+    rewrite !N.bits_0.
+    assert (i <? w * lenw d = false) as -> by (apply N.ltb_ge; nia).
+    cbn [andb]. symmetry. apply bitop_b_ff.
+Qed.
+
+(* ------------------------------------------------------------------ carry chains *)
+
+Lemma carry_chain_add_gen w : 0 < w -> forall d, words_ok w d -> forall rhs i c R,
+  c <= 1 -> (forall k, rhs (i + k) = (R / 2 ^ (w * k)) mod 2 ^ w) ->
+  words_ok w (fst (carry_chain (cadd w) rhs d i c)) /\
+  lenw (fst (carry_chain (cadd w) rhs d i c)) = lenw d /\
+  snd (carry_chain (cadd w) rhs d i c) <= 1 /\
+  raw w (fst (carry_chain (cadd w) rhs d i c)) + 2 ^ (w * lenw d) * snd (carry_chain (cadd w) rhs d i c)
+    = raw w d + R mod 2 ^ (w * lenw d) + c.
+Proof.
+  intros Hw d Hd. induction Hd as [|x r Hx Hr IH]; intros rhs i c R Hc HR.
+  - cbn [carry_chain fst snd]. rewrite lenw_nil, N.mul_0_r, raw_nil. cbn.
+    split; [constructor|]. split; [reflexivity|]. split; [assumption|].
+    rewrite N.mod_1_r. lia.
+  - cbn [carry_chain].
+    assert (Hy : rhs i = R mod 2 ^ w).
+    { specialize (HR 0). rewrite N.add_0_r, N.mul_0_r in HR. rewrite HR. cbn. rewrite N.div_1_r. reflexivity. }
+    destruct (cadd w x (rhs i) c) as [y c1] eqn:E1.
+    assert (Hyl : rhs i < 2 ^ w) by (rewrite Hy; apply N.mod_lt, pow2_ne0).
+    destruct (cadd_spec1 w x (rhs i) c y c1 Hx Hyl Hc E1) as (S1 & S2 & S3).
+    specialize (IH rhs (i + 1) c1 (R / 2 ^ w) S3).
+    destruct IH as (I1 & I2 & I3 & I4).
+    { intros k. replace (i + 1 + k) with (i + (1 + k)) by lia. rewrite HR.
+      rewrite div_div_pow2. f_equal. f_equal. f_equal. lia. }
+    destruct (carry_chain (cadd w) rhs r (i + 1) c1) as [r' c2] eqn:E2.
+    cbn [fst snd] in *.
+    split; [constructor; assumption|].
+    split; [rewrite !lenw_cons, I2; reflexivity|]. split; [assumption|].
+    rewrite !raw_cons, lenw_cons.
+    replace (w * (lenw r + 1)) with (w + w * lenw r) by lia.
+    rewrite mod_pow2_split, pow2_add. rewrite <- Hy.
+    set (B := 2 ^ w) in *. set (P := 2 ^ (w * lenw r)) in *.
+    set (M := (R / B) mod P) in *.
+    assert (B * (raw w r' + P * c2) = B * (raw w r + M + c1)) as HB by (f_equal; exact I4).
+    rewrite !N.mul_add_distr_l in HB.
+    clearbody B P M. clear - HB S1. lia.
+Qed.
+
+Lemma carry_chain_sub_gen w : 0 < w -> forall d, words_ok w d -> forall rhs i c R,
+  c <= 1 -> (forall k, rhs (i + k) = (R / 2 ^ (w * k)) mod 2 ^ w) ->
+  words_ok w (fst (carry_chain (csub w) rhs d i c)) /\
+  lenw (fst (carry_chain (csub w) rhs d i c)) = lenw d /\
+  snd (carry_chain (csub w) rhs d i c) <= 1 /\
+  raw w (fst (carry_chain (csub w) rhs d i c)) + R mod 2 ^ (w * lenw d) + c
+    = raw w d + 2 ^ (w * lenw d) * snd (carry_chain (csub w) rhs d i c).
+Proof.
+  intros Hw d Hd. induction Hd as [|x r Hx Hr IH]; intros rhs i c R Hc HR.
+  - cbn [carry_chain fst snd]. rewrite lenw_nil, N.mul_0_r, raw_nil. cbn.
+    split; [constructor|]. split; [reflexivity|]. split; [assumption|].
+    rewrite N.mod_1_r. lia.
+  - cbn [carry_chain].
+    assert (Hy : rhs i = R mod 2 ^ w).
+    { specialize (HR 0). rewrite N.add_0_r, N.mul_0_r in HR. rewrite HR. cbn. rewrite N.div_1_r. reflexivity. }
+    destruct (csub w x (rhs i) c) as [y c1] eqn:E1.
+    assert (Hyl : rhs i < 2 ^ w) by (rewrite Hy; apply N.mod_lt, pow2_ne0).
+    assert (Hc2 : c < 2 ^ w).
+    { assert (2 ^ 1 <= 2 ^ w) by (apply pow2_le; lia). change (2 ^ 1) with 2 in *. lia. }
+    destruct (csub_spec1 w x (rhs i) c y c1 Hx Hyl Hc Hc2 E1) as (S1 & S2 & S3).
+    specialize (IH rhs (i + 1) c1 (R / 2 ^ w) S3).
+    destruct IH as (I1 & I2 & I3 & I4).
+    { intros k. replace (i + 1 + k) with (i + (1 + k)) by lia. rewrite HR.
+      rewrite div_div_pow2. f_equal. f_equal. f_equal. lia. }
+    destruct (carry_chain (csub w) rhs r (i + 1) c1) as [r' c2] eqn:E2.
+    cbn [fst snd] in *.
+    split; [constructor; assumption|].
+    split; [rewrite !lenw_cons, I2; reflexivity|]. split; [assumption|].
+    rewrite !raw_cons, lenw_cons.
+    replace (w * (lenw r + 1)) with (w + w * lenw r) by lia.
+    rewrite mod_pow2_split, pow2_add. rewrite <- Hy.
+    set (B := 2 ^ w) in *. set (P := 2 ^ (w * lenw r)) in *.
+    set (M := (R / B) mod P) in *.
+    assert (B * (raw w r' + M + c1) = B * (raw w r + P * c2)) as HB by (f_equal; exact I4).
+    rewrite !N.mul_add_distr_l in HB.
+    clearbody B P M. clear - HB S1. lia.
+Qed.
+
+Lemma digits_of_gen w R rhs : digits_of w R rhs -> forall k, rhs (0 + k) = (R / 2 ^ (w * k)) mod 2 ^ w.
+Proof. intros H k. rewrite N.add_0_l. apply H. Qed.
+
+Lemma carry_chain_add_spec w d rhs R :
+  0 < w -> words_ok w d -> digits_of w R rhs ->
+  words_ok w (fst (carry_chain (cadd w) rhs d 0 0)) /\
+  lenw (fst (carry_chain (cadd w) rhs d 0 0)) = lenw d /\
+  snd (carry_chain (cadd w) rhs d 0 0) <= 1 /\
+  raw w (fst (carry_chain (cadd w) rhs d 0 0)) + 2 ^ (w * lenw d) * snd (carry_chain (cadd w) rhs d 0 0)
+    = raw w d + R mod 2 ^ (w * lenw d).
+Proof.
+  intros Hw Hd HR.
+  destruct (carry_chain_add_gen w Hw d Hd rhs 0 0 R) as (H1 & H2 & H3 & H4);
+    [lia|apply digits_of_gen; assumption|].
+  repeat split; try assumption. rewrite H4. lia.
+Qed.
+
+Lemma carry_chain_sub_spec w d rhs R :
+  0 < w -> words_ok w d -> digits_of w R rhs ->
+  words_ok w (fst (carry_chain (csub w) rhs d 0 0)) /\
+  lenw (fst (carry_chain (csub w) rhs d 0 0)) = lenw d /\
+  snd (carry_chain (csub w) rhs d 0 0) <= 1 /\
+  raw w (fst (carry_chain (csub w) rhs d 0 0)) + R mod 2 ^ (w * lenw d)
+    = raw w d + 2 ^ (w * lenw d) * snd (carry_chain (csub w) rhs d 0 0).
+Proof.
+  intros Hw Hd HR.
+  destruct (carry_chain_sub_gen w Hw d Hd rhs 0 0 R) as (H1 & H2 & H3 & H4);
+    [lia|apply digits_of_gen; assumption|].
+  repeat split; try assumption. rewrite <- H4. lia.
+Qed.
+
+Lemma add_mod_spec w d rhs R n :
+  0 < w -> words_ok w d -> digits_of w R rhs -> n <= w * lenw d ->
+  raw w (fst (carry_chain (cadd w) rhs d 0 0)) mod 2 ^ n = (raw w d + R) mod 2 ^ n.
+Proof.
+  intros Hw Hd HR Hn.
+  destruct (carry_chain_add_spec w d rhs R Hw Hd HR) as (_ & _ & _ & H4).
+  rewrite (pow2_split n (w * lenw d) Hn) in H4.
+  rewrite (N.add_mod (raw w d) R) by apply pow2_ne0.
+  rewrite <- (mod_mod_pow2 R n (w * lenw d) Hn).
+  rewrite <- N.add_mod by apply pow2_ne0.
+  apply (mod_eq_of_add _ _ _ (2 ^ (w * lenw d - n) * snd (carry_chain (cadd w) rhs d 0 0)) 0); [apply pow2_ne0|].
+  rewrite (pow2_split n (w * lenw d) Hn). lia.
+Qed.
+
+Lemma sub_mod_spec w d rhs R n :
+  0 < w -> words_ok w d -> digits_of w R rhs -> n <= w * lenw d -> raw w d < 2 ^ n ->
+  raw w (fst (carry_chain (csub w) rhs d 0 0)) mod 2 ^ n = (raw w d + 2 ^ n - R mod 2 ^ n) mod 2 ^ n.
+Proof.
+  intros Hw Hd HR Hn _.
+  destruct (carry_chain_sub_spec w d rhs R Hw Hd HR) as (_ & _ & _ & H4).
+  set (T := R mod 2 ^ (w * lenw d)) in *.
+  pose proof (div_mod_eq T (2 ^ n)) as ET.
+  assert (T mod 2 ^ n = R mod 2 ^ n) as ETm by (apply mod_mod_pow2; assumption).
+  rewrite ETm in ET.
+  pose proof (N.mod_lt R (2 ^ n) (pow2_ne0 n)) as Hlt.
+  rewrite (pow2_split n (w * lenw d) Hn) in H4.
+  apply (mod_eq_of_add _ _ _ (T / 2 ^ n + 1) (2 ^ (w * lenw d - n) * snd (carry_chain (csub w) rhs d 0 0)));
+    [apply pow2_ne0|].
+  set (Q := 2 ^ n) in *. set (K := 2 ^ (w * lenw d - n)) in *.
+  set (res := raw w (fst (carry_chain (csub w) rhs d 0 0))) in *.
+  set (cc := snd (carry_chain (csub w) rhs d 0 0)) in *.
+  set (rm := R mod Q) in *. set (tq := T / Q) in *.
+  clearbody rm tq cc res K Q T. clear - H4 ET Hlt.
+  rewrite N.mul_add_distr_l, N.mul_1_r, N.mul_assoc. lia.
+Qed.
+
+(* ------------------------------------------------------------------ ostep *)
+
+Lemma lor_01 a b : a <= 1 -> b <= 1 -> a + b <= 1 -> N.lor a b = a + b.
+Proof.
+  intros Ha Hb Hab.
+  assert (a = 0 \/ a = 1) as [-> | ->] by lia; assert (b = 0 \/ b = 1) as [-> | ->] by lia;
+    try reflexivity; lia.
+Qed.
+
+Lemma pow2_64_gt1 : 1 < 2 ^ 64.
+Proof. reflexivity. Qed.
+
+Lemma ostep_add_spec x y c v c' :
+  x < 2 ^ 64 -> y < 2 ^ 64 -> c <= 1 -> ostep OpAdd x y c = (v, c') ->
+  v + 2 ^ 64 * c' = x + y + c /\ v < 2 ^ 64 /\ c' <= 1.
+Proof.
+  intros Hx Hy Hc E. unfold ostep, W64 in E.
+  destruct (oadd 64 x c) as [d1 c1] eqn:E1.
+  destruct (oadd 64 d1 y) as [d2 c2] eqn:E2.
+  injection E as <- <-.
+  pose proof pow2_64_gt1 as H64.
+  assert (Hc' : c < 2 ^ 64) by lia.
+  destruct (oadd_spec 64 x c d1 c1 Hx Hc' E1) as (A1 & A2 & A3).
+  destruct (oadd_spec 64 d1 y d2 c2 A2 Hy E2) as (B1 & B2 & B3).
+  set (B := 2 ^ 64) in *. clearbody B.
+  assert (c1 + c2 <= 1) as Hs.
+  { clear - A1 A3 B1 B3 Hx Hy Hc B2 H64.
+    assert (c1 = 0 \/ c1 = 1) as [-> | ->] by lia; assert (c2 = 0 \/ c2 = 1) as [-> | ->] by lia; lia. }
+  rewrite lor_01 by assumption.
+  split; [|split; [assumption|assumption]].
+  rewrite N.mul_add_distr_l. lia.
+Qed.
+
+Lemma ostep_sub_spec x y c v c' :
+  x < 2 ^ 64 -> y < 2 ^ 64 -> c <= 1 -> ostep OpSub x y c = (v, c') ->
+  v + y + c = x + 2 ^ 64 * c' /\ v < 2 ^ 64 /\ c' <= 1.
+Proof.
+  intros Hx Hy Hc E. unfold ostep, W64 in E.
+  destruct (osub 64 x c) as [d1 c1] eqn:E1.
+  destruct (osub 64 d1 y) as [d2 c2] eqn:E2.
+  injection E as <- <-.
+  pose proof pow2_64_gt1 as H64.
+  assert (Hc' : c < 2 ^ 64) by lia.
+  destruct (osub_spec 64 x c d1 c1 Hx Hc' E1) as (A1 & A2 & A3).
+  destruct (osub_spec 64 d1 y d2 c2 A2 Hy E2) as (B1 & B2 & B3).
+  set (B := 2 ^ 64) in *. clearbody B.
+  assert (c1 + c2 <= 1) as Hs.
+  { clear - A1 A3 B1 B3 Hx Hy Hc B2 A2 H64.
+    assert (c1 = 0 \/ c1 = 1) as [-> | ->] by lia; assert (c2 = 0 \/ c2 = 1) as [-> | ->] by lia; lia. }
+  rewrite lor_01 by assumption.
+  split; [|split; [assumption|assumption]].
+  rewrite N.mul_add_distr_l. lia.
+Qed.
+
+(* ------------------------------------------------------------------ Not *)
+
+Lemma not_bits n x i : x < 2 ^ n -> N.testbit (2 ^ n - 1 - x) i = xorb (N.testbit x i) (i <? n).
+Proof. intros H. rewrite <- notw_eq by assumption. apply notw_testbit. Qed.
+
+Lemma words_ok_map_notw w d : words_ok w d -> words_ok w (map (notw w) d).
+Proof.
+  intros H. unfold words_ok in *. apply Forall_map.
+  eapply Forall_impl; [|exact H]. intros a Ha. apply notw_lt. assumption.
+Qed.
+
+Lemma lenw_map (f : N -> N) d : lenw (map f d) = lenw d.
+Proof. unfold lenw. rewrite map_length. reflexivity. Qed.
+
+Lemma raw_map_notw w d : words_ok w d -> raw w d + raw w (map (notw w) d) + 1 = 2 ^ (w * lenw d).
+Proof.
+  induction 1 as [|x r Hx Hr IH].
+  - cbn [map]. rewrite raw_nil, lenw_nil, N.mul_0_r. reflexivity.
+  - cbn [map]. rewrite !raw_cons, lenw_cons.
+    replace (w * (lenw r + 1)) with (w + w * lenw r) by lia. rewrite pow2_add, <- IH.
+    pose proof (notw_add w x Hx) as Hn. pose proof (pow2_pos w) as Hp.
+    set (B := 2 ^ w) in *. clearbody B.
+    rewrite !N.mul_add_distr_l. lia.
+Qed.
+
+Lemma f_not_spec w v :
+  0 < w -> canon_wv w v ->
+  canon_wv w (f_not w v) /\ wl (f_not w v) = wl v /\ lenw (wd (f_not w v)) = lenw (wd v) /\
+  raw w (wd (f_not w v)) = 2 ^ wl v - 1 - raw w (wd v).
+Proof.
+  intros Hw (Hd & Hl & Hr). unfold f_not. cbn [wd wl].
+  pose proof (words_ok_map_notw w _ Hd) as Hm.
+  assert (Hraw : raw w (mod2n w (map (notw w) (wd v)) (wl v)) = 2 ^ wl v - 1 - raw w (wd v)).
+  { rewrite raw_mod2n by assumption.
+    pose proof (raw_map_notw w _ Hd) as E.
+    rewrite (pow2_split (wl v) _ Hl) in E.
+    pose proof (pow2_pos (w * lenw (wd v) - wl v)) as HK.
+    pose proof (pow2_pos (wl v)) as HQ.
+    set (Q := 2 ^ wl v) in *. set (K := 2 ^ (w * lenw (wd v) - wl v)) in *.
+    symmetry. apply (N.mod_unique _ _ (K - 1)); [lia|].
+    set (x := raw w (wd v)) in *. set (y := raw w (map (notw w) (wd v))) in *.
+    clearbody Q K x y. clear - E HK HQ Hr.
+    assert (Q * K = Q * (K - 1) + Q) as E2.
+    { rewrite N.mul_sub_distr_l, N.mul_1_r. assert (Q * 1 <= Q * K) by (apply N.mul_le_mono_l; lia). lia. }
+    lia. }
+  split.
+  - unfold canon_wv. cbn [wd wl]. split; [apply words_ok_mod2n; assumption|].
+    split; [rewrite lenw_mod2n, lenw_map; assumption|].
+    rewrite Hraw. pose proof (pow2_pos (wl v)). lia.
+  - split; [reflexivity|]. split; [rewrite lenw_mod2n, lenw_map; reflexivity|exact Hraw].
+Qed.
+
+(* words of a canonical value beyond the used ones are zero *)
+Lemma canon_getw_high w v q : 0 < w -> canon_wv w v -> wl v <= w * q -> getw (wd v) q = 0.
+Proof.
+  intros Hw (Hd & Hl & Hr) Hq. rewrite (getw_raw w Hw) by assumption.
+  rewrite N.div_small; [apply N.mod_0_l, pow2_ne0|].
+  eapply N.lt_le_trans; [exact Hr|]. apply pow2_le. assumption.
+Qed.
+
+Lemma words_ok_mask_top64 d len : words_ok 64 d -> words_ok 64 (mask_top64 d len).
+Proof.
+  intros Hd. unfold mask_top64. apply words_ok_upd_at; [assumption|].
+  apply lt_pow2_of_bits. intros i Hi. rewrite N.land_spec.
+  rewrite (testbit_high (getw d (len / W64)) 64 i); [reflexivity|apply getw_ok; assumption|assumption].
+Qed.
+
+Lemma lenw_mask_top64 d len : lenw (mask_top64 d len) = lenw d.
+Proof. apply lenw_upd_at. Qed.
+
+Lemma cfbl_d_eq len : cfbl_d len = (len + 63) / 64.
+Proof. unfold cfbl_d, cfbyl_d. lia. Qed.
+
+(* both Not variants: d' holds the complemented used words and zeros above *)
+Lemma not_words_spec v d' :
+  canon_wv 64 v -> words_ok 64 d' -> cfbl_d (wl v) <= lenw d' ->
+  (forall q, q < cfbl_d (wl v) -> getw d' q = notw 64 (getw (wd v) q)) ->
+  (forall q, cfbl_d (wl v) <= q -> getw d' q = 0) ->
+  raw 64 (mask_top64 d' (wl v)) = 2 ^ wl v - 1 - raw 64 (wd v).
+Proof.
+  intros Hc Hd' Hk H1 H2. pose proof Hc as (Hd & Hl & Hr).
+  assert (H64 : 0 < 64) by lia.
+  apply N.bits_inj. intro i.
+  rewrite not_bits by assumption.
+  rewrite (raw_testbit 64 H64) by (apply words_ok_mask_top64; assumption).
+  unfold mask_top64, W64. rewrite getw_upd_at.
+  rewrite cfbl_d_eq in *.
+  set (len := wl v) in *.
+  destruct (N.ltb_spec (i / 64) ((len + 63) / 64)) as [Hq|Hq].
+  - (* a used word *)
+    assert (Hb : N.testbit (raw 64 (wd v)) i = N.testbit (getw (wd v) (i / 64)) (i mod 64))
+      by (apply (raw_testbit 64 H64); assumption).
+    destruct ((len / 64 =? i / 64) && (len / 64 <? lenw d')) eqn:E.
+    + apply andb_true_iff in E. destruct E as [E1 E2]. apply N.eqb_eq in E1. apply N.ltb_lt in E2.
+      rewrite E1, H1 by assumption.
+      rewrite N.land_spec, notw_testbit, maskw_testbit, Hb.
+      assert (i mod 64 <? 64 = true) as -> by (apply N.ltb_lt; lia).
+      rewrite andb_true_r, xorb_true_r.
+      destruct (N.ltb_spec (i mod 64) (len mod 64)) as [Hm|Hm]; destruct (N.ltb_spec i len) as [Hi|Hi].
+      * rewrite andb_true_r, xorb_true_r. reflexivity.
+      * exfalso. lia.
+      * exfalso. lia.
+      * rewrite andb_false_r, xorb_false_r. rewrite <- Hb. symmetry.
+        apply (testbit_high _ len); assumption.
+    + rewrite H1 by assumption. rewrite notw_testbit, Hb.
+      assert (i mod 64 <? 64 = true) as -> by (apply N.ltb_lt; lia).
+      assert (i <? len = true) as ->; [|reflexivity].
+      apply N.ltb_lt. apply andb_false_iff in E. destruct E as [E|E].
+      * apply N.eqb_neq in E. lia.
+      * apply N.ltb_ge in E. lia.
+  - (* above the used words: everything is zero *)
+    assert (Hz : N.testbit (raw 64 (wd v)) i = false) by (apply (testbit_high _ len); [assumption|lia]).
+    assert (i <? len = false) as -> by (apply N.ltb_ge; lia).
+    rewrite Hz. cbn [xorb].
+    destruct ((len / 64 =? i / 64) && (len / 64 <? lenw d')) eqn:E.
+    + apply andb_true_iff in E. destruct E as [E1 E2]. apply N.eqb_eq in E1.
+      rewrite E1, H2 by assumption. rewrite N.land_0_l. apply N.bits_0.
+    + rewrite H2 by assumption. apply N.bits_0.
+Qed.
+
+Lemma not_words_canon v d' :
+  canon_wv 64 v -> words_ok 64 d' -> cfbl_d (wl v) <= lenw d' ->
+  raw 64 (mask_top64 d' (wl v)) = 2 ^ wl v - 1 - raw 64 (wd v) ->
+  canon_wv 64 (mkwv (mask_top64 d' (wl v)) (wl v)).
+Proof.
+  intros (Hd & Hl & Hr) Hd' Hk E. unfold canon_wv. cbn [wd wl].
+  split; [apply words_ok_mask_top64; assumption|].
+  split; [rewrite lenw_mask_top64; rewrite cfbl_d_eq in Hk; lia|].
+  rewrite E. pose proof (pow2_pos (wl v)). lia.
+Qed.
+
+Lemma canon_cfbl_le v : canon_wv 64 v -> cfbl_d (wl v) <= lenw (wd v).
+Proof. intros (_ & Hl & _). rewrite cfbl_d_eq. lia. Qed.
+
+Lemma d_not_spec v :
+  canon_wv 64 v ->
+  exists r, d_not v = Ok r /\ canon_wv 64 r /\ wl r = wl v /\ lenw (wd r) = lenw (wd v) /\
+            raw 64 (wd r) = 2 ^ wl v - 1 - raw 64 (wd v).
+Proof.
+  intros Hc. pose proof Hc as (Hd & Hl & Hr). pose proof (canon_cfbl_le v Hc) as Hk.
+  unfold d_not. assert (lenw (wd v) <? cfbl_d (wl v) = false) as -> by (apply N.ltb_ge; assumption).
+  eexists. split; [reflexivity|]. cbn [wd wl].
+  set (d' := mapi (fun i x => if i <? cfbl_d (wl v) then notw W64 x else x) (wd v)).
+  assert (Hd' : words_ok 64 d').
+  { apply words_ok_mapi. intros i _. destruct (i <? cfbl_d (wl v)).
+    - apply notw_lt, getw_ok; assumption.
+    - apply getw_ok; assumption. }
+  assert (Hlen : lenw d' = lenw (wd v)) by apply lenw_mapi.
+  assert (E : raw 64 (mask_top64 d' (wl v)) = 2 ^ wl v - 1 - raw 64 (wd v)).
+  { apply not_words_spec; try assumption; [lia| |].
+    - intros q Hq. unfold d'. rewrite getw_mapi by lia.
+      apply N.ltb_lt in Hq. rewrite Hq. reflexivity.
+    - intros q Hq. destruct (N.lt_ge_cases q (lenw (wd v))) as [Hlt|Hge].
+      + unfold d'. rewrite getw_mapi by assumption.
+        assert (q <? cfbl_d (wl v) = false) as -> by (apply N.ltb_ge; assumption).
+        apply (canon_getw_high 64); [lia|assumption|]. rewrite cfbl_d_eq in Hq. lia.
+      + apply getw_high. lia. }
+  split; [apply not_words_canon; try assumption; lia|].
+  split; [reflexivity|]. split; [rewrite lenw_mask_top64; assumption|exact E].
+Qed.
+
+Lemma getw_map_lt (f : N -> N) d q : q < lenw d -> getw (map f d) q = f (getw d q).
+Proof.
+  intros H. unfold getw, lenw in *.
+  rewrite (nth_indep _ 0 (f 0)) by (rewrite map_length; lia). apply map_nth.
+Qed.
+
+Lemma lenw_firstn k d : k <= lenw d -> lenw (firstn (N.to_nat k) d) = k.
+Proof. intros H. unfold lenw in *. rewrite firstn_length. lia. Qed.
+
+Lemma getw_firstn k d q : q < k -> getw (firstn (N.to_nat k) d) q = getw d q.
+Proof.
+  intros H. unfold getw. assert (Hab : (N.to_nat q < N.to_nat k)%nat) by lia.
+  revert d. revert Hab. generalize (N.to_nat q) (N.to_nat k).
+  clear. intros a b. revert a. induction b as [|b IH]; intros a Hab d; [lia|].
+  destruct d as [|x r]; [destruct a; reflexivity|]. cbn [firstn].
+  destruct a as [|a]; [reflexivity|]. cbn [nth]. apply IH. lia.
+Qed.
+
+Lemma d_not_ref_spec v :
+  canon_wv 64 v ->
+  exists r, d_not_ref v = Ok r /\ canon_wv 64 r /\ wl r = wl v /\ lenw (wd r) = cfbl_d (wl v) /\
+            raw 64 (wd r) = 2 ^ wl v - 1 - raw 64 (wd v).
+Proof.
+  intros Hc. pose proof Hc as (Hd & Hl & Hr). pose proof (canon_cfbl_le v Hc) as Hk.
+  unfold d_not_ref. assert (lenw (wd v) <? cfbl_d (wl v) = false) as -> by (apply N.ltb_ge; assumption).
+  eexists. split; [reflexivity|]. cbn [wd wl].
+  set (k := cfbl_d (wl v)) in *.
+  set (d' := map (notw W64) (firstn (N.to_nat k) (wd v))).
+  assert (Hlen : lenw d' = k) by (unfold d'; rewrite lenw_map; apply lenw_firstn; assumption).
+  assert (Hd' : words_ok 64 d').
+  { apply words_ok_getw. intros i Hi. rewrite Hlen in Hi. unfold d'.
+    rewrite getw_map_lt by (rewrite lenw_firstn; assumption).
+    apply notw_lt. rewrite getw_firstn by assumption. apply getw_ok; assumption. }
+  assert (E : raw 64 (mask_top64 d' (wl v)) = 2 ^ wl v - 1 - raw 64 (wd v)).
+  { apply not_words_spec; try assumption; fold k; [lia| |].
+    - intros q Hq. unfold d'. rewrite getw_map_lt by (rewrite lenw_firstn; assumption).
+      rewrite getw_firstn by assumption. reflexivity.
+    - intros q Hq. apply getw_high. lia. }
+  split; [apply not_words_canon; try assumption; fold k; lia|].
+  split; [reflexivity|]. split; [rewrite lenw_mask_top64; assumption|exact E].
+Qed.
+
+(* ------------------------------------------------------------------ chain_range *)
+
+(* the carry equation of both operators: new + carry-out term vs old + right operand + carry-in *)
+Definition ceq (o : addop) (nw co old r c : N) : Prop :=
+  match o with
+  | OpAdd => nw + co = old + r + c
+  | OpSub => nw + r + c = old + co
+  end.
+
+Lemma ostep_spec o x y c v c' :
+  x < 2 ^ 64 -> y < 2 ^ 64 -> c <= 1 -> ostep o x y c = (v, c') ->
+  ceq o v (2 ^ 64 * c') x y c /\ v < 2 ^ 64 /\ c' <= 1.
+Proof. destruct o; cbn [ceq]; [apply ostep_add_spec|apply ostep_sub_spec]. Qed.
+
+Lemma ceq_step o P B W1 c1 W Rm c z c2 x y :
+  ceq o W1 (P * c1) W Rm c -> ceq o z (B * c2) x y c1 ->
+  ceq o (W1 + P * z) (P * B * c2) (W + P * x) (Rm + P * y) c.
+Proof.
+  destruct o; cbn [ceq]; intros H1 H2.
+  - assert (P * (z + B * c2) = P * (x + y + c1)) as E by (f_equal; exact H2).
+    rewrite !N.mul_add_distr_l, N.mul_assoc in E. lia.
+  - assert (P * (z + y + c1) = P * (x + B * c2)) as E by (f_equal; exact H2).
+    rewrite !N.mul_add_distr_l, N.mul_assoc in E. lia.
+Qed.
+
+(* value of the words [a, a+n) *)
+Definition win (d : list N) (a n : N) : N := (raw 64 d / 2 ^ (64 * a)) mod 2 ^ (64 * n).
+
+Lemma win_0 d a : win d a 0 = 0.
+Proof. unfold win. rewrite N.mul_0_r. cbn. apply N.mod_1_r. Qed.
+
+Lemma win_succ d a n : words_ok 64 d -> win d a (n + 1) = win d a n + 2 ^ (64 * n) * getw d (a + n).
+Proof.
+  intros Hd. unfold win.
+  replace (64 * (n + 1)) with (64 * n + 64) by lia.
+  rewrite mod_pow2_split, div_div_pow2.
+  rewrite (getw_raw 64) by (assumption || lia).
+  replace (64 * (a + n)) with (64 * a + 64 * n) by lia. reflexivity.
+Qed.
+
+Lemma win_ext d1 d2 a n :
+  words_ok 64 d1 -> words_ok 64 d2 ->
+  (forall i, a <= i -> i < a + n -> getw d1 i = getw d2 i) -> win d1 a n = win d2 a n.
+Proof.
+  intros H1 H2 Hg. unfold win. apply N.bits_inj. intro j.
+  rewrite !mod_pow2_testbit, !div_pow2_testbit.
+  destruct (N.ltb_spec j (64 * n)) as [Hj|Hj]; [|reflexivity]. cbn [andb].
+  assert (H64 : 0 < 64) by lia.
+  rewrite !(raw_testbit 64 H64) by assumption.
+  rewrite Hg by lia. reflexivity.
+Qed.
+
+Lemma rmod_succ R n : R mod 2 ^ (64 * (n + 1)) = R mod 2 ^ (64 * n) + 2 ^ (64 * n) * ((R / 2 ^ (64 * n)) mod 2 ^ 64).
+Proof. replace (64 * (n + 1)) with (64 * n + 64) by lia. apply mod_pow2_split. Qed.
+
+Definition chain_body (step : N -> N -> N -> N * N) (rhs : N -> outcome N) :=
+  fun (acc : outcome (list N * N)) (i : N) =>
+    let! (d, c) := acc in
+    let! x := geto d i in
+    let! y := rhs i in
+    let '(z, c') := step x y c in
+    let! d' := seto d i z in
+    Ok (d', c').
+
+Lemma chain_range_unfold step rhs d a b c :
+  chain_range step rhs d a b c =
+  fold_left (chain_body step rhs) (map (fun i => a + i) (nrange (b - a))) (Ok (d, c)).
+Proof. reflexivity. Qed.
+
+Lemma chain_fold_spec o d rhs a c R :
+  words_ok 64 d -> c <= 1 ->
+  forall n, a + n <= lenw d ->
+  (forall i, a <= i -> i < a + n -> exists y, rhs i = Ok y /\ y = (R / 2 ^ (64 * (i - a))) mod 2 ^ 64) ->
+  exists d' c',
+    fold_left (chain_body (ostep o) rhs) (map (fun i => a + i) (nrange n)) (Ok (d, c)) = Ok (d', c') /\
+    words_ok 64 d' /\ lenw d' = lenw d /\ c' <= 1 /\
+    (forall i, i < a \/ a + n <= i -> getw d' i = getw d i) /\
+    ceq o (win d' a n) (2 ^ (64 * n) * c') (win d a n) (R mod 2 ^ (64 * n)) c.
+Proof.
+  intros Hd Hc n. induction n as [|n IH] using N.peano_ind; intros Hn Hrhs.
+  - exists d, c. rewrite nrange_0. cbn [map fold_left].
+    split; [reflexivity|]. split; [assumption|]. split; [reflexivity|]. split; [assumption|].
+    split; [reflexivity|].
+    rewrite !win_0, N.mul_0_r. cbn. rewrite N.mod_1_r. destruct o; cbn [ceq]; lia.
+  - rewrite <- N.add_1_r in *.
+    destruct IH as (d1 & c1 & E1 & Hd1 & Hl1 & Hc1 & Hout & Heq).
+    { lia. }
+    { intros i Hi1 Hi2. apply Hrhs; lia. }
+    rewrite nrange_succ, map_app, fold_left_app, E1. cbn [map fold_left].
+    destruct (Hrhs (a + n)) as (y & Ey & Hy); [lia|lia|].
+    replace (a + n - a) with n in Hy by lia.
+    unfold chain_body at 1. cbn [bind].
+    rewrite geto_ok by lia. cbn [bind]. rewrite Ey. cbn [bind].
+    assert (Hx : getw d1 (a + n) < 2 ^ 64) by (apply getw_ok; assumption).
+    assert (Hyl : y < 2 ^ 64) by (rewrite Hy; apply N.mod_lt, pow2_ne0).
+    destruct (ostep o (getw d1 (a + n)) y c1) as [z c2] eqn:Es.
+    destruct (ostep_spec o _ _ _ _ _ Hx Hyl Hc1 Es) as (S1 & S2 & S3).
+    rewrite seto_ok by lia. cbn [bind].
+    exists (setw d1 (a + n) z), c2.
+    assert (Hd2 : words_ok 64 (setw d1 (a + n) z)) by (apply words_ok_setw; assumption).
+    split; [reflexivity|]. split; [assumption|].
+    split; [rewrite lenw_setw; assumption|]. split; [assumption|].
+    split.
+    + intros i Hi. rewrite getw_setw.
+      destruct (N.eqb_spec (a + n) i) as [Hei|Hei]; [lia|]. cbn [andb]. apply Hout. lia.
+    + rewrite !win_succ by assumption. rewrite rmod_succ, <- Hy.
+      rewrite getw_setw. rewrite N.eqb_refl.
+      assert (a + n <? lenw d1 = true) as -> by (apply N.ltb_lt; lia). cbn [andb].
+      rewrite (win_ext (setw d1 (a + n) z) d1 a n Hd2 Hd1).
+      2:{ intros i Hi1 Hi2. rewrite getw_setw.
+          destruct (N.eqb_spec (a + n) i) as [Hei|Hei]; [lia|]. reflexivity. }
+      rewrite <- (Hout (a + n)) by lia.
+      replace (64 * (n + 1)) with (64 * n + 64) by lia. rewrite pow2_add.
+      apply (ceq_step o _ _ _ c1); assumption.
+Qed.
+
+Lemma chain_range_spec o d rhs a b c R :
+  words_ok 64 d -> a <= b -> b <= lenw d -> c <= 1 ->
+  (forall i, a <= i -> i < b -> exists y, rhs i = Ok y /\ y = (R / 2 ^ (64 * (i - a))) mod 2 ^ 64) ->
+  exists d' c', chain_range (ostep o) rhs d a b c = Ok (d', c') /\
+    words_ok 64 d' /\ lenw d' = lenw d /\ c' <= 1 /\
+    (forall i, i < a \/ b <= i -> getw d' i = getw d i) /\
+    ceq o (win d' a (b - a)) (2 ^ (64 * (b - a)) * c') (win d a (b - a)) (R mod 2 ^ (64 * (b - a))) c.
+Proof.
+  intros Hd Hab Hb Hc Hrhs.
+  destruct (chain_fold_spec o d rhs a c R Hd Hc (b - a)) as (d' & c' & E & H1 & H2 & H3 & H4 & H5).
+  { lia. }
+  { intros i Hi1 Hi2. apply Hrhs; lia. }
+  exists d', c'. rewrite chain_range_unfold.
+  split; [exact E|]. split; [assumption|]. split; [assumption|]. split; [assumption|].
+  split; [|exact H5]. intros i Hi. apply H4. lia.
+Qed.
+
+Lemma chain_range_add_spec d rhs a b c R :
+  words_ok 64 d -> a <= b -> b <= lenw d -> c <= 1 ->
+  (forall i, a <= i -> i < b -> exists y, rhs i = Ok y /\ y = (R / 2 ^ (64 * (i - a))) mod 2 ^ 64) ->
+  exists d' c', chain_range (ostep OpAdd) rhs d a b c = Ok (d', c') /\
+    words_ok 64 d' /\ lenw d' = lenw d /\ c' <= 1 /\
+    (forall i, i < a \/ b <= i -> getw d' i = getw d i) /\
+    (raw 64 d' / 2 ^ (64 * a)) mod 2 ^ (64 * (b - a)) + 2 ^ (64 * (b - a)) * c'
+      = (raw 64 d / 2 ^ (64 * a)) mod 2 ^ (64 * (b - a)) + R mod 2 ^ (64 * (b - a)) + c.
+Proof. apply (chain_range_spec OpAdd). Qed.
+
+Lemma chain_range_sub_spec d rhs a b c R :
+  words_ok 64 d -> a <= b -> b <= lenw d -> c <= 1 ->
+  (forall i, a <= i -> i < b -> exists y, rhs i = Ok y /\ y = (R / 2 ^ (64 * (i - a))) mod 2 ^ 64) ->
+  exists d' c', chain_range (ostep OpSub) rhs d a b c = Ok (d', c') /\
+    words_ok 64 d' /\ lenw d' = lenw d /\ c' <= 1 /\
+    (forall i, i < a \/ b <= i -> getw d' i = getw d i) /\
+    (raw 64 d' / 2 ^ (64 * a)) mod 2 ^ (64 * (b - a)) + R mod 2 ^ (64 * (b - a)) + c
+      = (raw 64 d / 2 ^ (64 * a)) mod 2 ^ (64 * (b - a)) + 2 ^ (64 * (b - a)) * c'.
+Proof. apply (chain_range_spec OpSub). Qed.
